@@ -12,6 +12,8 @@ CONSTANTS
   OkSet = {TRUE, FALSE}
   ForeignRefCheck = TRUE
   HeaderSetCheck = TRUE
+  Mutations = FALSE
+  CopyRule = "firstfree"
   ItemRefs = {0, 7}
 VIEW View
 INVARIANT IdentityUnique
@@ -22,5 +24,6 @@ INVARIANT Isolation
 INVARIANT Completeness
 INVARIANT ViewUnique
 INVARIANT CopyNumbersDense
+INVARIANT CopyNumbersDistinct
 PROPERTY RejectedIsNoOp
 CHECK_DEADLOCK FALSE
